@@ -210,8 +210,11 @@ def run_case(rec, files: dict, descs: dict | None, order: list[str], implicit: b
                     holders = {g.rsplit(".", 1)[0] for g in gone}
                     others_ok = all(k.startswith("placeholder:") or k.rsplit(".", 1)[0] in holders for k in diff)
                     fid = "C06-wildcard-late-expansion" if (gone and others_ok) else None
+                    if fid:
+                        deferred.append((fid, f"resolve_aliases() call #{i + 1} changed the tree (not a fixpoint): " + str(sorted(diff))[:200]))
+                        break   # a listed mechanism: go on with the other monitors of this case
                     rec.fail(case, f"resolve_aliases() call #{i + 1} changed the tree (not a fixpoint)",
-                             observed={"changed": diff, "unresolved": [snaps[0][1], snaps[i][1]]}, finding=fid,
+                             observed={"changed": diff, "unresolved": [snaps[0][1], snaps[i][1]]},
                              tried=["C06-wildcard-late-expansion"], nontrivial=nontrivial, tags=tags)
                     return
             # (3) all-or-nothing -------------------------------------------------------------
